@@ -26,18 +26,18 @@ theorem hdr_eq_parts {c : Node} {id : Nat} {p : Option Nat} {s : Schema} {k : St
   simp only [Node.hdr, Prod.mk.injEq] at h; exact h
 
 def KidOK (pid : Nat) (subs : List Schema) (c : Node) : Prop :=
-  c.parent = some pid ∧ c.sch ∈ subs ∧ c.key = c.sch.key ∧ c.ni.optOv = none ∧ c.ni.nameOv = none
+  c.parent = some pid ∧ c.sch ∈ subs ∧ c.key = c.sch.key ∧ c.ni.nameOv = none
 
 theorem kidOK_of_hdr {pid : Nat} {subs : List Schema} {a b : Node} (h : a.hdr = b.hdr) (hb : KidOK pid subs b) :
     KidOK pid subs a := by
-  obtain ⟨_, hp, hs, hk, ho, hn⟩ := hdr_parts h
+  obtain ⟨_, hp, hs, hk, _, hn⟩ := hdr_parts h
   unfold KidOK at *
-  rw [hp, hs, hk, ho, hn]; exact hb
+  rw [hp, hs, hk, hn]; exact hb
 
 theorem kidOK_fresh {pid : Nat} {subs : List Schema} {c : Node} {id : Nat} {f : Schema}
     (h : c.hdr = (id, some pid, f, f.key, none, none)) (hf : f ∈ subs) : KidOK pid subs c := by
-  obtain ⟨_, hp, hs, hk, ho, hn⟩ := hdr_eq_parts h
-  exact ⟨hp, by rw [hs]; exact hf, by rw [hk, hs], ho, hn⟩
+  obtain ⟨_, hp, hs, hk, _, hn⟩ := hdr_eq_parts h
+  exact ⟨hp, by rw [hs]; exact hf, by rw [hk, hs], hn⟩
 
 theorem hdr_withParent {x : Node} {id : Nat} {p : Option Nat} {s : Schema} {k : Str} {o : Option Bool} {nm : Option Str}
     (h : x.hdr = (id, p, s, k, o, nm)) (q : Option Nat) : (x.withParent q).hdr = (id, q, s, k, o, nm) := by
@@ -410,17 +410,17 @@ theorem setChild_hdr (child : Node) (a : Arg) (next : Nat) : (setChild child a n
 def ArgExact (n : Node) (k : Str) (a : Arg) : Prop :=
   match a with
   | .elem e => ∀ f, fieldFor n.sch.subs k = some f → isInstance e f = true →
-      e.sch = f ∧ e.ni.optOv = none ∧ e.ni.nameOv = none
+      e.sch = f ∧ e.ni.nameOv = none
   | .plain _ => True
 
 theorem kidOK_placed {n : Node} {e : Node} {f : Schema} {key : Str} (hf : f ∈ n.sch.subs) (hfk : f.key = key)
-    (hes : e.sch = f ∧ e.ni.optOv = none ∧ e.ni.nameOv = none) :
+    (hes : e.sch = f ∧ e.ni.nameOv = none) :
     KidOK n.id n.sch.subs ((e.withParent (some n.id)).withKey key) := by
   cases e with
   | mk i s ks =>
-    obtain ⟨hes, ho, hn⟩ := hes
+    obtain ⟨hes, hn⟩ := hes
     simp only [Node.sch] at hes
-    refine ⟨rfl, ?_, ?_, ho, hn⟩
+    refine ⟨rfl, ?_, ?_, hn⟩
     · show s ∈ n.sch.subs; rw [hes]; exact hf
     · show key = s.key; rw [hes, hfk]
 
@@ -584,18 +584,15 @@ theorem KI.erase {n : Node} (h : KI n n.kids) (hs : n.kind = .sparse) (hnd : Fie
   intro hfk
   have hko := hopt hm
   unfold keyOptional at hko
-  cases hc : findKid n.kids k with
-  | none => exact findKid_none hc (hfk ▸ hin)
-  | some c =>
-    rw [hc] at hko
+  cases hff : fieldFor n.sch.subs k with
+  | none => exact fieldFor_none hff (hfk ▸ List.mem_map_of_mem hf)
+  | some g =>
+    rw [hff] at hko
     simp only [Option.some.injEq] at hko
-    obtain ⟨hcm, hck⟩ := findKid_some hc
-    have hok := h.ok c hcm
-    have : c.sch = f := field_unique hnd hok.2.1 hf (by rw [← hok.2.2.1, hck, hfk])
-    unfold Node.optional at hko
-    rw [hok.2.2.2.1, this] at hko
-    simp [ho] at hko
-
+    obtain ⟨hgm, hgk⟩ := fieldFor_some hff
+    have : g = f := field_unique hnd hgm hf (by rw [hgk, hfk])
+    rw [this, ho] at hko
+    cases hko
 
 theorem argExact_congr {n r : Node} (h : r.hdr = n.hdr) (k : Str) (a : Arg) : ArgExact r k a ↔ ArgExact n k a := by
   have hs : r.sch = n.sch := (hdr_parts h).2.2.1
@@ -682,11 +679,18 @@ theorem mapStep_ok (n : Node) (hk : MapKind n) (hnd : FieldsNodup n) (h : KI n n
             rename_i c hc
             simp only [hm, Bool.true_and] at hreq
             unfold keyOptional at hreq ⊢
-            rw [hc] at hreq ⊢
-            simp only [Option.some.injEq]
-            cases hb : c.optional
-            · simp [hb] at hreq
-            · rfl
+            cases hff : fieldFor n.sch.subs k with
+            | some g =>
+              rw [hff] at hreq
+              cases hb : g.info.optional
+              · simp [hb] at hreq
+              · simp [hb]
+            | none =>
+              rw [hff, hc] at hreq
+              rw [hc]
+              cases hb : c.optional
+              · simp [hb] at hreq
+              · simp [hb]
           · exact ⟨rfl, h⟩
   | popitem => dsimp only; split <;> exact ⟨rfl, h⟩
   | clear =>
@@ -776,7 +780,7 @@ theorem sch_of_step (n : Node) (hk : MapKind n) (hnd : FieldsNodup n) (h : MapIn
 /-- the hypothesis on Element arguments, stated against the (constant) class of the mapping -/
 def ArgExactS (s : Schema) (k : Str) : Arg → Prop
   | .elem e => ∀ f, fieldFor s.subs k = some f → isInstance e f = true →
-      e.sch = f ∧ e.ni.optOv = none ∧ e.ni.nameOv = none
+      e.sch = f ∧ e.ni.nameOv = none
   | .plain _ => True
 
 def OpExactS (s : Schema) : MapOp → Prop
@@ -839,7 +843,7 @@ theorem mapinv_init (s : Schema) (hk : s.kind = .dict ∨ s.kind = .sparse) (par
 /-- every stored child carries its key as its `.name` -/
 theorem named_after_key {n : Node} (h : MapInv n) (hf : FieldsNamed n.sch) : NamedAfterKey n := by
   intro c hc
-  obtain ⟨_, hmem, hkey, _, hnov⟩ := h.kids c hc
+  obtain ⟨_, hmem, hkey, hnov⟩ := h.kids c hc
   obtain ⟨hns, nm, hnm⟩ := hf c.sch hmem
   rw [hkey]
   have hk : ¬ c.kind = .slot := hns
@@ -856,7 +860,7 @@ theorem undeclared_rejected {n : Node} (h : MapInv n) (k : Str) (hund : fieldFor
     | none => rfl
     | some c =>
       obtain ⟨hcm, hck⟩ := findKid_some hc
-      obtain ⟨_, hmem, hkey, _, _⟩ := h.kids c hcm
+      obtain ⟨_, hmem, hkey, _⟩ := h.kids c hcm
       exact absurd (List.mem_map.mpr ⟨c.sch, hmem, by rw [← hkey, hck]⟩) (fieldFor_none hund)
   rcases hop with ⟨a, rfl⟩ | rfl | rfl | ⟨d, rfl⟩ | rfl
   · show (mapSetItem n k a next).node = n ∧ _
@@ -899,27 +903,13 @@ theorem C10_full_fails : ¬ C10_Full := by
   have : ((exRenamed.withParent (some 1)).withKey ['a']).sch.info.cid = exA.info.cid := by rw [hm]
   exact absurd this (by decide)
 
-/-! ### instance-level overrides (finding KF-C10-b)
+/-! ### instance-level `optional=` (KF-C10-b, repaired in /repo 6e22928)
 
-`SparseDict.__delitem__` / `pop` read `self[key].optional` — the *member*, not the field schema.
-An element of exactly the field class built with `optional=True` (`A('v', optional=True)`), once
-adopted under a required key, makes that key deletable: the "always its required ones" clause
-fails although the argument is of the declared class.  `ArgExact` therefore also demands that
-the argument carries no instance-level `optional=` / `name=`; with the class condition alone the
-history theorem is false: -/
-
-def ArgClassOnly (s : Schema) (k : Str) : Arg → Prop
-  | .elem e => ∀ f, fieldFor s.subs k = some f → isInstance e f = true → e.sch = f
-  | .plain _ => True
-
-def OpClassOnly (s : Schema) : MapOp → Prop
-  | .setitem k a => ArgClassOnly s k a
-  | .updateArgs kvs => ∀ p ∈ kvs, ArgClassOnly s p.1 p.2
-  | _ => True
-
-def C10_RunClassOnly : Prop :=
-  ∀ (ops : List MapOp) (n : Node) (next : Nat), MapInv n → MapKind n → FieldsNodup n →
-    (∀ op ∈ ops, OpClassOnly n.sch op) → MapInv (run ⟨n, next⟩ ops).node
+`SparseDict.__delitem__` / `pop` used to read `self[key].optional` — the *member*: an element of
+exactly the field class built with `optional=True` (`A('v', optional=True)`), once adopted under
+a required key, made that key deletable.  They now consult the field schema (`keyOptional`), so
+`ArgExact` no longer mentions `optional=`: `mapinv_run` covers such arguments, and the former
+counter-example is an instance of it. -/
 
 def exSR : Schema := .mk { cid := 1, kind := .sparse, minreq := true } .none [exA]
 /-- `S = SparseDict.of(A).using(minimum_fields='required'); s = S()` -/
@@ -927,23 +917,26 @@ def exSparseReq : Node := (blank exSR none [] 1).1
 /-- `A('v', optional=True)`: `type(e) is A` -/
 def exOptInst : Node := .mk { id := 7, parent := none, val := .str ['v'], u := ['v'], optOv := some true } exA []
 
-/-- `s['a'] = A('v', optional=True); del s['a']` leaves the required key missing -/
-theorem C10_runClassOnly_fails : ¬ C10_RunClassOnly := by
-  intro hfull
-  have h := hfull [.setitem ['a'] (.elem exOptInst), .delitem ['a']] exSparseReq 10
-    (mapinv_init exSR (Or.inr rfl) none [] 1) (Or.inr rfl) (by unfold FieldsNodup; decide)
-    (by
-      intro op hop
-      simp only [List.mem_cons, List.not_mem_nil, or_false] at hop
-      rcases hop with rfl | rfl
-      · intro f hf _
-        show exOptInst.sch = f
-        have : fieldFor exSparseReq.sch.subs ['a'] = some exA := rfl
-        rw [this] at hf
-        cases hf; rfl
-      · trivial)
-  have hk := h.required (by decide) (by decide) exA (by show exA ∈ [exA]; simp) rfl
-  exact absurd hk (by decide)
+def exOptHist : List MapOp := [.setitem ['a'] (.elem exOptInst), .delitem ['a'], .pop ['a']]
+
+/-- **required_survives_optional_member.**  `s['a'] = A('v', optional=True); del s['a']; s.pop('a')`:
+    the invariant — in particular "always its required fields" — holds afterwards -/
+theorem required_survives_optional_member : MapInv (run ⟨exSparseReq, 10⟩ exOptHist).node := by
+  apply mapinv_run exOptHist exSparseReq 10 (mapinv_init exSR (Or.inr rfl) none [] 1) (Or.inr rfl)
+    (by unfold FieldsNodup; decide)
+  intro op hop
+  simp only [exOptHist, List.mem_cons, List.not_mem_nil, or_false] at hop
+  rcases hop with rfl | rfl | rfl
+  · intro f hf _
+    have : fieldFor exSparseReq.sch.subs ['a'] = some exA := rfl
+    rw [this] at hf
+    cases hf; exact ⟨rfl, rfl⟩
+  · trivial
+  · trivial
+
+example : keys (run ⟨exSparseReq, 10⟩ exOptHist).node = [['a']] := by decide
+example : (mapStep (mapStep exSparseReq (.setitem ['a'] (.elem exOptInst)) 10).node (.delitem ['a']) 20).out
+    = .exc .typeError := rfl
 
 /-! ### non-vacuity -/
 
